@@ -229,7 +229,7 @@ class Ctx:
         self.failed_files = [n for n, s in status.items() if not s and "refuted" not in n]
         return {n: bool(s) for n, s in status.items()}
 
-    def register_props(self, status: dict[str, bool]):
+    def register_props(self, status: dict[str, bool], coqchk: bool = True):
         """Every `Theorem/Lemma name` in *_props*.v is an obligation; parse Print Assumptions output."""
         for f in sorted(self.build.glob("*props*.v")):
             txt = f.read_text()
@@ -262,7 +262,7 @@ class Ctx:
                 if ok and t not in pas:
                     self.obligations[t]["status"] = "failed"
                     self.logs[f.name + ":" + t] = "no Print Assumptions for theorem"
-        if self.tier == "thorough" and os.environ.get("VERIF_COQCHK", "1") != "0":
+        if coqchk and self.tier == "thorough" and os.environ.get("VERIF_COQCHK", "1") != "0":
             self.coqchk(status)
 
     def mark_refuted(self, name, refuted_thm):
@@ -275,7 +275,10 @@ class Ctx:
     def coqchk(self, status, timeout=1500):
         """thorough tier: re-check the compiled property files (and everything they depend on) with the independent
         checker and record the axioms it reports. A timeout is recorded as a note, a rejection is a failure."""
-        mods = ["P." + f.stem for f in sorted(self.build.glob("*props*.v")) if status.get(f.name)]
+        skip = tuple(getattr(self, "coqchk_skip", ()))  # bulk vm_compute certificates whose re-evaluation by coqchk exceeds the budget
+        allm = [f.stem for f in sorted(self.build.glob("*props*.v")) if status.get(f.name)]
+        mods = ["P." + m for m in allm if m not in skip]
+        skipped = [m for m in allm if m in skip]
         if not mods:
             return
         t = time.time()
@@ -286,6 +289,8 @@ class Ctx:
         except Exception as e:  # pragma: no cover
             out, r = repr(e), None
         info = {"modules": len(mods), "s": round(time.time() - t, 1)}
+        if skipped:
+            info["not_rechecked"] = skipped
         if r is not None and r.returncode == 124:
             info["result"] = "timeout"
             self.notes.append(f"coqchk did not finish within {timeout}s")
